@@ -85,6 +85,8 @@ func c16HistWorker(args []string) int {
 		c16HistoriesInProcess(ctx)
 	case "pool":
 		c16PoolInProcess(ctx)
+	case "mixed":
+		c16MixedInProcess(ctx)
 	default:
 		return 2
 	}
